@@ -127,7 +127,15 @@ def run(ctx):
     for what, thunk in [('fnmatch(str name, bytes pattern)', lambda: Fm.fnmatch('a', b'a')), ('fnmatch(bytes name, str pattern)', lambda: Fm.fnmatch(b'a', 'a')),
                         ('globmatch(str, bytes)', lambda: Gm.globmatch('a', b'a')), ('filter', lambda: Fm.filter([b'a'], 'a')),
                         ('globmatch REALPATH root_dir bytes/str', lambda: Gm.globmatch('a', 'a', flags=Gm.REALPATH, root_dir=b'.')),
-                        ('glob root_dir mixing', lambda: Gm.glob('a', root_dir=b'.')), ('glob root_dir mixing 2', lambda: Gm.glob(b'a', root_dir='.'))]:
+                        ('glob root_dir mixing', lambda: Gm.glob('a', root_dir=b'.')), ('glob root_dir mixing 2', lambda: Gm.glob(b'a', root_dir='.')),
+                        # the same for every shape of pattern set: exclusion-only (NEGATE), empty list with exclude=, NEGATEALL, compiled matchers
+                        ('globmatch REALPATH exclusion-only, str root', lambda: Gm.globmatch(b'keep.txt', b'!skip.log', flags=Gm.NEGATE | Gm.REALPATH | Gm.GLOBSTAR, root_dir='.')),
+                        ('globmatch REALPATH exclusion-only, bytes root', lambda: Gm.globmatch('keep.txt', '!skip.log', flags=Gm.NEGATE | Gm.REALPATH, root_dir=b'.')),
+                        ('globmatch REALPATH [] + exclude=, str root', lambda: Gm.globmatch(b'keep.txt', [], exclude=b'*.log', flags=Gm.REALPATH, root_dir='.')),
+                        ('globfilter REALPATH exclusion-only', lambda: Gm.globfilter([b'keep.txt'], b'!skip.log', flags=Gm.NEGATE | Gm.REALPATH, root_dir='.')),
+                        ('compile().match REALPATH exclusion-only', lambda: Gm.compile(b'!skip.log', flags=Gm.NEGATE | Gm.REALPATH).match(b'keep.txt', root_dir='.')),
+                        ('compile().match REALPATH NEGATEALL', lambda: Gm.compile(b'!skip.log', flags=Gm.NEGATE | Gm.NEGATEALL | Gm.REALPATH).match(b'keep.txt', root_dir='.')),
+                        ('compile().filter REALPATH', lambda: Gm.compile('*.txt', flags=Gm.REALPATH).filter(['keep.txt'], root_dir=b'.'))]:
         evals += 1
         try:
             r = thunk()
@@ -152,8 +160,10 @@ def run(ctx):
                                        {'pattern': p, 'flags': corr.flag_names(gv), 'str': rs, 'bytes': repr(rb)})
                 elif rs:
                     nontriv.add((p, 'glob'))
-        for p, x in [('*.txt', ''), ('*', 'd'), ('*.py|*.txt', 'f'), ('!a*', '')]:
-            for wv in (WM.RECURSIVE, WM.RECURSIVE | WM.HIDDEN | WM.FILEPATHNAME | WM.GLOBSTAR, WM.RECURSIVE | WM.BRACE | WM.EXTMATCH):
+        for p, x in [('*.txt', ''), ('*', 'd'), ('*.py|*.txt', 'f'), ('!a*', ''), ('*.txt', 'd/f'), ('*', '*/f|D2'), ('**/*.py', 'nomatch')]:
+            for wv in (WM.RECURSIVE, WM.RECURSIVE | WM.HIDDEN | WM.FILEPATHNAME | WM.GLOBSTAR, WM.RECURSIVE | WM.BRACE | WM.EXTMATCH,
+                       WM.RECURSIVE | WM.DIRPATHNAME, WM.RECURSIVE | WM.DIRPATHNAME | WM.GLOBSTAR | WM.FILEPATHNAME, WM.RECURSIVE | WM.DIRPATHNAME | WM.MATCHBASE,
+                       WM.DIRPATHNAME, WM.RECURSIVE | WM.SYMLINKS | WM.IGNORECASE):
                 evals += 1
                 rs = WM.WcMatch(tmp, p, x, flags=wv).match()
                 rb = WM.WcMatch(e(tmp), e(p), e(x), flags=wv).match()
